@@ -14,6 +14,7 @@ CONFIG = dict(
         technique="Lean 4 proof over translator-regenerated definitions + differential correspondence",
     ),
     translators=["gosubset"],
+    gen_drivers=["drv_c31gen"],
     props_files=["Sky/Props/C31.lean"],
     model_files=["Sky/C31/Spec.lean", "Sky/Prim/Res.lean"],
     min_ops={"quick": 3000, "thorough": 100000},
